@@ -126,7 +126,7 @@ pub fn run(ctx: &mut Ctx) {
     }
 
     // 3. random documents
-    let n = ctx.budget(200_000, 5_000_000);
+    let n = if ctx.miri { ctx.miri_cases(60) } else { ctx.budget(2_000_000, 40_000_000) };
     for i in 0..n {
         if !ctx.next_case() {
             return;
